@@ -22,6 +22,10 @@ def parseX : Nat → List Char → Option (Expr × List Char)
     else if c = 'N' then
       let (s, r) := takeWhileC isDigit cs
       some (.atom (.int s), r)
+    else if c = 'M' then
+      -- a negative number built as ONE literal (BasicLit "-12"): see `Fmt.negLit`
+      let (s, r) := takeWhileC isDigit cs
+      some (negLit s, r)
     else if c = 'P' then
       match cs with
       | '(' :: r =>
